@@ -7,6 +7,7 @@
 #![allow(deprecated)]
 
 mod alphabet;
+mod builder;
 mod engine;
 mod fx;
 mod props;
